@@ -33,17 +33,18 @@ func init() {
 			g(rep, "VALIDATE-COMPLETE", func() { ruleVALIDATECOMPLETE(p, rep) })
 			g(rep, "CHECKSUM-COVERAGE", func() { ruleCHECKSUMCOVERAGE(p, rep) })
 			g(rep, "TRUNCATE-COVERS", func() { ruleTRUNCATECOVERS(p, rep) })
+			g(rep, "QUEUE-UNCONDITIONAL", func() { ruleQUEUEUNCONDITIONAL(p, rep) })
 		},
 	})
 	register(&propertyDef{
 		id: "C02",
 		explain: "Decides the structural conditions of snapshot isolation: (LOCKSET) every write to the pointers that define what a transaction sees (File.metaActive/meta/mapped/size, waLog.mapping, allocator state, FileStats) and every access by a concurrent role hold a conflicting lock pair — evaluated per role (reader, writer, Close, background writer) by abstract interpretation with the lock state; " +
 			"(SNAPSHOT-AT-BEGIN) the per-transaction snapshot is taken under the transaction lock; (READER-IS-PASSIVE) no write/sync/switch/rollback is reachable from any method of a read-only transaction; " +
-			"(LOCKS preconditions) the exclusive wait happens only under Pending, Pending only under the writer lock; (SHADOW, DEFERFREE) the writer never changes bytes a reader can reach. " +
+			"(LOCKS preconditions) the exclusive wait happens only under Pending, Pending only under the writer lock; (SHADOW, DEFERFREE) the writer never changes bytes a reader can reach; (ORDER) the pages a transaction freed reach the free lists only through the in-memory switch, which is placed after a successful Wait — a failed commit never makes committed pages allocatable. " +
 			"Not decided: the condition-variable implementation in lock.go, poisoned views after remap, any actual interleaving.",
 		run: func(p *Program, rep *Report, tier string) {
 			g(rep, "LOCKSET", func() { ruleLOCKSET(p, rep) })
-			g(rep, "ORDER", func() { ruleORDER(p, rep, orderSet("READER-IS-PASSIVE")) })
+			g(rep, "ORDER", func() { ruleORDER(p, rep, orderSet("ORDER", "READER-IS-PASSIVE")) })
 			g(rep, "LOCKS", func() {
 				ruleLOCKS(p, rep, func(r lockRoot) bool {
 					return r.name == "File.Close" || strings.HasPrefix(r.name, "Tx.Commit[tx(") || strings.HasPrefix(r.name, "File.Begin")
@@ -51,6 +52,7 @@ func init() {
 			})
 			g(rep, "SHADOW", func() { ruleSHADOW(p, rep) })
 			g(rep, "DEFERFREE", func() { ruleDEFERFREE(p, rep) })
+			g(rep, "BOUND-SOURCE", func() { ruleBOUNDSOURCE(p, rep) })
 		},
 	})
 	register(&propertyDef{
@@ -129,6 +131,7 @@ func init() {
 			})
 			g(rep, "LIFECYCLE", func() { ruleLIFECYCLE(p, rep, "tx-finished") })
 			g(rep, "STICKY", func() { ruleSTICKYAI(p, rep); ruleSTICKYSSA(p, rep) })
+			g(rep, "QUEUE-UNCONDITIONAL", func() { ruleQUEUEUNCONDITIONAL(p, rep) })
 		},
 	})
 	register(&propertyDef{
@@ -206,6 +209,7 @@ func init() {
 			g(rep, "PRECOMMIT-NO-ALIAS", func() { rulePRECOMMITNOALIAS(p, rep) })
 			g(rep, "TRUNCATE-COVERS", func() { ruleTRUNCATECOVERS(p, rep) })
 			g(rep, "MAXSIZE-DECISION", func() { ruleMAXSIZEDECISION(p, rep) })
+			g(rep, "MMAP-COVERS-FILE", func() { ruleMMAPCOVERSFILE(p, rep) })
 		},
 	})
 	register(&propertyDef{
@@ -218,6 +222,7 @@ func init() {
 			g(rep, "PAGE-BOUNDS", func() { rulePAGEBOUNDS(p, rep) })
 			g(rep, "TOMBSTONE", func() { ruleTOMBSTONE(p, rep) })
 			g(rep, "SETBYTES-BOUND", func() { ruleSETBYTESBOUND(p, rep) })
+			g(rep, "BOUND-SOURCE", func() { ruleBOUNDSOURCE(p, rep) })
 		},
 	})
 	register(&propertyDef{
